@@ -165,7 +165,7 @@ def _alts(msg, plural, kind) -> set:
 
 @st.composite
 def cases(draw):
-    r = draw(st.randoms(use_true_random=False))
+    r = core.rng(draw)
 
     def message():
         return "".join(r.choice(PIECES) for _ in range(r.randint(1, 6)))
